@@ -1,4 +1,5 @@
 import Mixin.Model.PeerMsg
+import Mixin.Model.PeerWire
 import Mixin.Proofs.PeerMsg
 import Mixin.Facts.ExpectedC08
 /-!
@@ -599,5 +600,170 @@ example : parse oracleAll 2 [] = .reject := rfl
 example : parse oracleAll 2 [1] = .ok { type := 1, version := 2 } := by decide
 example : parse oracleAll 2 [1, 0] = .reject := by decide
 example : parse oracleAll 9 [77, 1, 2] = .ok { type := 77, version := 9 } := by decide
+
+
+/-! ## the transport in front of the parser (`p2p/quic.go`): whole frames arrive as built, a frame
+whose sender stops in the middle is an error and never a shorter message -/
+
+section Wire
+open Mixin.PeerWire
+open Mixin.Batch (frame receive receiveA be32 ofBe32 maxSize frameVersion Recv)
+
+theorem wire_max_fits_u32 : maxSize < 4294967296 := by decide
+
+theorem wire_ofBe32_be32 (n : Nat) (h : n < 4294967296) :
+    ofBe32 (n / 16777216 % 256).toUInt8 (n / 65536 % 256).toUInt8 (n / 256 % 256).toUInt8 (n % 256).toUInt8 = n := by
+  unfold ofBe32
+  have e : ∀ k, k < 256 → (Nat.toUInt8 k).toNat = k := fun k hk => by
+    simp [Nat.toUInt8, UInt8.toNat_ofNat', Nat.mod_eq_of_lt hk]
+  rw [e _ (Nat.mod_lt _ (by decide)), e _ (Nat.mod_lt _ (by decide)), e _ (Nat.mod_lt _ (by decide)),
+    e _ (Nat.mod_lt _ (by decide))]
+  omega
+
+/-- the bytes `Send` writes for a message of 1..max bytes -/
+def frameBytes (d : Bytes) : Bytes := frameVersion.toUInt8 :: 0 :: be32 d.length ++ d
+
+theorem sendFrame_eq (d : Bytes) (h1 : 1 ≤ d.length) (h2 : d.length ≤ maxSize) :
+    sendFrame d = some (frameBytes d) := by
+  unfold sendFrame frame frameBytes
+  rw [if_neg]
+  simp only [Bool.or_eq_true, decide_eq_true_eq]; omega
+
+theorem frameBytes_length (d : Bytes) : (frameBytes d).length = 6 + d.length := by
+  simp [frameBytes, be32]; omega
+
+theorem receive_short_header_gen (M ver limit : Nat) (s : Bytes) (hl : ¬ (limit = 0 || limit > M) = true)
+    (h : s.length < 6) : receive M ver limit s = .shortHeader := by
+  unfold receive receiveA
+  rw [if_neg hl]
+  match s, h with
+  | [], _ => rfl
+  | [_], _ => rfl
+  | [_, _], _ => rfl
+  | [_, _, _], _ => rfl
+  | [_, _, _, _], _ => rfl
+  | [_, _, _, _, _], _ => rfl
+  | _ :: _ :: _ :: _ :: _ :: _ :: _, h => simp at h; omega
+
+theorem receive_body_gen (M ver limit : Nat) (d body : Bytes)
+    (hM : M < 4294967296) (hv : ver < 256) (h1 : 1 ≤ limit) (h2 : d.length ≤ limit) (h3 : limit ≤ M) :
+    receive M ver limit (ver.toUInt8 :: 0 :: be32 d.length ++ body) =
+      if body.length < d.length then .shortBody d.length else .ok (body.take d.length) (body.drop d.length) := by
+  have hver : (Nat.toUInt8 ver).toNat = ver := by
+    simp [Nat.toUInt8, UInt8.toNat_ofNat', Nat.mod_eq_of_lt hv]
+  have hsz := wire_ofBe32_be32 d.length (by omega)
+  unfold receive receiveA
+  rw [if_neg (by simp; omega)]
+  simp only [be32, List.cons_append, List.nil_append]
+  rw [if_neg (by simp [hver])]
+  simp only [hsz]
+  rw [if_neg (by omega)]
+  by_cases hb : body.length < d.length
+  · rw [if_pos hb, if_pos hb]
+  · rw [if_neg hb, if_neg hb]
+
+theorem wire_limit_ok : ¬ (maxSize = 0 || maxSize > maxSize) = true := by decide
+theorem wire_version_fits_byte : frameVersion < 256 := by decide
+theorem wire_max_pos : 1 ≤ maxSize := by decide
+
+theorem receive_short_header (s : Bytes) (h : s.length < 6) : receiveFrame s = .shortHeader :=
+  receive_short_header_gen _ _ _ s wire_limit_ok h
+
+theorem receive_body (d body : Bytes) (h2 : d.length ≤ maxSize) :
+    receiveFrame (frameVersion.toUInt8 :: 0 :: be32 d.length ++ body) =
+      if body.length < d.length then .shortBody d.length else .ok (body.take d.length) (body.drop d.length) :=
+  receive_body_gen maxSize frameVersion maxSize d body wire_max_fits_u32 wire_version_fits_byte wire_max_pos h2
+    (Nat.le_refl _)
+
+/-- **A truncated frame is never a message.**  If the stream ends after any strict prefix of
+    the frame of `d`, `Receive` returns an error: "short header" below 6 bytes, "short body"
+    from there on.  In particular it never returns a shorter message. -/
+theorem receive_truncated_rejected (d : Bytes) (h2 : d.length ≤ maxSize) (k : Nat)
+    (hk : k < (frameBytes d).length) :
+    receiveFrame ((frameBytes d).take k) = if k < 6 then .shortHeader else .shortBody d.length := by
+  rw [frameBytes_length] at hk
+  by_cases h6 : k < 6
+  · rw [if_pos h6]
+    exact receive_short_header _ (by simp [frameBytes_length]; omega)
+  · rw [if_neg h6]
+    obtain ⟨j, rfl⟩ : ∃ j, k = 6 + j := ⟨k - 6, by omega⟩
+    have e : (frameBytes d).take (6 + j) = frameVersion.toUInt8 :: 0 :: be32 d.length ++ d.take j := by
+      have : 6 + j = j + 1 + 1 + 1 + 1 + 1 + 1 := by omega
+      rw [this]
+      simp [frameBytes, be32, List.take]
+    rw [e, receive_body d (d.take j) h2]
+    rw [if_pos (by simp; omega)]
+
+theorem receive_truncated_never_ok (d : Bytes) (h2 : d.length ≤ maxSize) (k : Nat)
+    (hk : k < (frameBytes d).length) (d' rest : Bytes) :
+    receiveFrame ((frameBytes d).take k) ≠ .ok d' rest := by
+  rw [receive_truncated_rejected d h2 k hk]
+  split <;> simp
+
+/-- `receiveParse` through a `Receive` result (stated for an opaque stream, so that nothing ever
+    evaluates the framing function against the 32 MiB constant) -/
+theorem receiveParse_of_ok (O : Oracle) (s d r : Bytes) (h : receiveFrame s = .ok d r) :
+    receiveParse O s = parse O (UInt8.ofNat frameVersion) d := by
+  unfold receiveParse; rw [h]
+
+theorem receiveParse_of_shortHeader (O : Oracle) (s : Bytes) (h : receiveFrame s = .shortHeader) :
+    receiveParse O s = .reject := by
+  unfold receiveParse; rw [h]
+
+theorem receiveParse_of_shortBody (O : Oracle) (s : Bytes) (n : Nat) (h : receiveFrame s = .shortBody n) :
+    receiveParse O s = .reject := by
+  unfold receiveParse; rw [h]
+
+/-- a truncated frame reaches the parser as an error, whatever the oracle -/
+theorem truncated_never_parsed (O : Oracle) (d : Bytes) (h2 : d.length ≤ maxSize) (k : Nat)
+    (hk : k < (frameBytes d).length) : receiveParse O ((frameBytes d).take k) = .reject := by
+  have h := receive_truncated_rejected d h2 k hk
+  by_cases h6 : k < 6
+  · rw [if_pos h6] at h; exact receiveParse_of_shortHeader O _ h
+  · rw [if_neg h6] at h; exact receiveParse_of_shortBody O _ _ h
+
+/-- whole frames: `Receive` returns exactly the message and leaves the rest of the stream -/
+theorem send_receive (d rest : Bytes) (h2 : d.length ≤ maxSize) :
+    receiveFrame (frameBytes d ++ rest) = .ok d rest := by
+  unfold frameBytes
+  rw [List.append_assoc, receive_body d (d ++ rest) h2, if_neg (by simp)]
+  simp
+
+/-- **Send → Receive → parse.**  Whatever parses directly parses identically after a trip through
+    the transport (with the version byte `Send` writes); with the `build_parse_*` theorems: every
+    message the node builds and sends arrives as the same type and field values. -/
+theorem send_receive_parse (O : Oracle) (d rest : Bytes) (m : Msg) (h1 : 1 ≤ d.length) (h2 : d.length ≤ maxSize)
+    (hp : parse O (UInt8.ofNat frameVersion) d = .ok m) :
+    ∃ f, sendFrame d = some f ∧ receiveParse O (f ++ rest) = .ok m := by
+  refine ⟨frameBytes d, sendFrame_eq d h1 h2, ?_⟩
+  exact (receiveParse_of_ok O _ d rest (send_receive d rest h2)).trans hp
+
+/-- instance: a commitment with any list of wanted hashes, end to end -/
+theorem send_receive_parse_commitment (O : Oracle) (sig h R : Bytes) (ws : List Bytes) (rest : Bytes)
+    (hsig : sig.length = 64) (hh : h.length = 32) (hR : R.length = 32) (hk : O.checkKey R = true)
+    (hw : ∀ w ∈ ws, w.length = 32) (hmax : (buildCommitment sig h R ws).length ≤ maxSize) :
+    ∃ f, sendFrame (buildCommitment sig h R ws) = some f ∧
+      receiveParse O (f ++ rest) =
+        .ok { type := tCommitment, version := UInt8.ofNat frameVersion, snapshotHash := h, commitment := R,
+              wantTxs := ws, signature := some sig, unsigned := h ++ (R ++ ws.flatten) } :=
+  send_receive_parse O _ rest _ (by simp [buildCommitment]) hmax
+    (build_parse_commitment O _ sig h R ws hsig hh hR hk hw)
+
+/-- and cut anywhere — for instance between two wanted hashes, where the cut bytes alone would be
+    a well-formed commitment with fewer hashes — it is an error -/
+theorem truncated_commitment_rejected (O : Oracle) (sig h R : Bytes) (ws : List Bytes) (k : Nat)
+    (hmax : (buildCommitment sig h R ws).length ≤ maxSize)
+    (hk : k < (frameBytes (buildCommitment sig h R ws)).length) :
+    receiveParse O ((frameBytes (buildCommitment sig h R ws)).take k) = .reject :=
+  truncated_never_parsed O _ hmax k hk
+
+
+-- non-vacuity: a 3-byte message cut after 8 of its 9 frame bytes is "short body", whole it arrives
+example : receiveFrame ((frameBytes [5, 1, 2]).take 8) = .shortBody 3 :=
+  receive_truncated_rejected [5, 1, 2] (by decide) 8 (by decide)
+example : receiveFrame (frameBytes [5, 1, 2] ++ [9]) = .ok [5, 1, 2] [9] := send_receive [5, 1, 2] [9] (by decide)
+example : frameBytes [5, 1, 2] = [2, 0, 0, 0, 0, 3, 5, 1, 2] := by decide
+
+end Wire
 
 end Mixin.C08
